@@ -9,6 +9,10 @@ import genmodels as G
 from c01 import CONFIGS, NS_MAPS
 
 
+# maps that need cleaning (namespaces.clean_prefixes): '' key, the same uri as default and prefixed, empty uri
+RAW_MAPS = [{"@empty": "urn:a"}, {"": "urn:a", "p": "urn:a"}, {"p": "", "q": "urn:b"}, {"@empty": "urn:b", "b": "urn:b"}]
+
+
 def run(ck: Check):
     ck.level = "proof"
     r = ck.rng
@@ -21,8 +25,8 @@ def run(ck: Check):
         insts = [G.gen_instance(r, m, m["root"]) for _ in range(3)]
         cases = []
         for i in range(len(insts)):
-            cases.append({"i": i, "op": "writers", "config": r.choice(CONFIGS), "ns_map": r.choice(NS_MAPS)})
-            cases.append({"i": i, "op": "handlers"})
+            cases.append({"i": i, "op": "writers", "config": r.choice(CONFIGS), "ns_map": r.choice(NS_MAPS + RAW_MAPS)})
+            cases.append({"i": i, "op": "handlers", "rewrite_seed": r.randrange(1 << 30) if r.random() < 0.6 else None})
         jobs.append({"src": G.render_source(m), "name": f"gm_{ck.seed}_{k}", "root": m["root"], "instances": insts, "cases": cases})
     out = []
     for i in range(0, len(jobs), 20):
@@ -43,8 +47,11 @@ def run(ck: Check):
             elif case["op"] == "writers":
                 errs = res.get("errors") or {}
                 nm = case.get("ns_map") or {}
-                if "" in nm:
-                    cls = "writers-user-default-namespace"
+                agree = res.get("agree") or []
+                if ("" in nm or "@empty" in nm) and not errs and agree == ["lxml=tree"]:
+                    cls = "writers-user-default-namespace"     # the native writer is the odd one out
+                elif ("" in nm or "@empty" in nm) and list(errs) == ["native"] and errs["native"].startswith("KeyError"):
+                    cls = "writers-native-keyerror-default-namespace"
                 elif errs:
                     cls = "writers-error-" + "-".join(sorted(errs))
                 else:
@@ -52,9 +59,16 @@ def run(ck: Check):
                 ck.failure(cls, f"writers disagree ({errs or 'infosets differ'}) ns_map={nm}",
                            {"model_src": job["src"], "instance": job["instances"][case["i"]], "case": case, "result": res})
             else:
-                kinds = sorted({k.split("/")[0] + ("/et" if "/et_" in k else "") for k in res["diffs"]})
-                ck.failure("handlers-differ-" + "-".join(kinds).replace("/", "_"), f"handlers/sources disagree: {res['diffs']}",
-                           {"model_src": job["src"], "instance": job["instances"][case["i"]], "case": case, "result": res})
+                # one failure per group of source kinds (each group has its own cause)
+                groups = {}
+                for k, why in res["diffs"].items():
+                    g = "native_et" if "/et_" in k else ("lxml_tree" if k.startswith("lxml/lxml_") else k.replace("/", "_"))
+                    groups.setdefault(g, {})[k] = why
+                for g, ds in groups.items():
+                    if g == "lxml_tree" and case.get("rewrite_seed") is None:
+                        g = "lxml_tree_plain"
+                    ck.failure("handlers-differ-" + g, f"handlers/sources disagree: {ds}",
+                               {"model_src": job["src"], "instance": job["instances"][case["i"]], "case": case, "result": res})
     ck.cov["evaluations"] = n
     ck.cov["distinct_nontrivial"] = n
     ck.cov["rule"] = "writers: (model, instance, config, user map) -> 3 infosets compared; handlers: (model, instance) -> 2 handlers x 7 source kinds compared"
